@@ -408,6 +408,13 @@ pub trait Encoding: private::SealedContainer {
             let net =
                 Self::hrp_network(hrp).ok_or_else(|| ParseError::UnknownPrefix(hrp.to_string()))?;
 
+            // Reject non-canonical padding of the 5-bit to 8-bit conversion (more than four
+            // padding bits, or non-zero ones), so that distinct strings decode differently.
+            if parsed.validate_segwit_padding().is_err() {
+                return Err(ParseError::InvalidEncoding(
+                    "non-canonical Bech32m padding".to_string(),
+                ));
+            }
             let data = parsed.byte_iter().collect::<Vec<_>>();
 
             Self::parse_internal(hrp, data).map(|value| (net, value))
